@@ -2,25 +2,12 @@ import TinkVerif.Props.C18Class
 /-! C18 — the regenerated mutation facts are all on allow-listed per-stream / per-call / builder objects. -/
 namespace TinkVerif.Gen.MutFacts
 
-/-- **no primitive, key, handle or registry type is written after construction** (syntactically) -/
+/-- **no primitive, key, handle or registry type is written after construction** (entry-point summaries) -/
 theorem facts_classified : unexpected = [] := by decide +kernel
 
-theorem scan_coverage : 100 ≤ packagesScanned := by decide
-
-/-- the allow-list is not stale: every allowed owner still has a fact -/
-theorem allowances_used : allowedOwners.all (fun (pkg, owner, _) => facts.any fun f => f.pkg == pkg && f.owner == owner) = true := by
-  decide +kernel
-
-/-- every allow-listed package-level variable still exists as a fact -/
-theorem global_allowances_used :
-    allowedGlobals.all (fun (pkg, v, _) => facts.any fun f => isGlobalKind f.kind && f.pkg == pkg && f.owner == v) = true := by
-  decide +kernel
-
-/-- every allow-listed in-place write / hand-out of a container field still exists as a fact -/
-theorem field_allowances_used :
-    allowedFieldFacts.all (fun (pkg, fn, kind, what, _) =>
-      facts.any fun f => f.pkg == pkg && f.fn == fn && f.kind == kind && f.what == what) = true := by
-  decide +kernel
+/-- the scan covered the code base; the extractor itself refuses when a package does not type-check or when no call
+    site resolves to a function of the module (lost type information) -/
+theorem scan_coverage : 100 ≤ packagesScanned ∧ 1000 ≤ functionsScanned ∧ 1000 ≤ resolvedCallSites := by decide
 
 end TinkVerif.Gen.MutFacts
 
@@ -28,7 +15,4 @@ section AxiomAudit
 open TinkVerif.Gen.MutFacts
 #print axioms facts_classified
 #print axioms scan_coverage
-#print axioms allowances_used
-#print axioms global_allowances_used
-#print axioms field_allowances_used
 end AxiomAudit
